@@ -944,6 +944,18 @@ def oracle(spec):
                     else:
                         if (got == TypeBound.Copyable) != want:
                             fails.append(Failure("Opaque.type_bound", "decoded-bound-differs", ""))
+                        else:
+                            # … and a resolution that finds nothing (empty registry) leaves the reported bound alone:
+                            # opaque types keep reporting their declared bound
+                            try:
+                                from hugr.ext import ExtensionRegistry
+
+                                got2 = obj.resolve(ExtensionRegistry()).type_bound()
+                            except Exception as e:  # noqa: BLE001
+                                fails.append(Failure("Opaque.resolve", "raises-on-empty-registry", type(e).__name__))
+                            else:
+                                if got2 != got:
+                                    fails.append(Failure("Opaque.resolve", "bound-changed-by-a-resolution-that-found-nothing", f"{got} -> {got2}"))
         elif k == "stddef":
             td = _loaded_def(spec["file"], spec["name"])
             s = ["@ext", bridge.typedef_to_spec(td), spec["args"]]
